@@ -29,6 +29,7 @@ type StepPath struct {
 	Reason    string
 	Ghost     map[string]sym.Value
 	Assumed   []string
+	Effects   []string
 }
 
 // Steps is the extracted step relation.
@@ -85,7 +86,7 @@ func (c *Ctx) ExtractSteps(in *sym.Interp, harness string, inv func(in *sym.Inte
 			res.Other = append(res.Other, st)
 			continue
 		}
-		sp := &StepPath{ID: st.ID, PCList: st.PC, PC: st.PCTerm(), Pre: st.LoopPre, Post: st.LoopPost, Writes: st.Writes, Status: st.Status, Reason: st.Reason, Ghost: st.Ghost, Assumed: st.Assumed}
+		sp := &StepPath{ID: st.ID, PCList: st.PC, PC: st.PCTerm(), Pre: st.LoopPre, Post: st.LoopPost, Writes: st.Writes, Status: st.Status, Reason: st.Reason, Ghost: st.Ghost, Assumed: st.Assumed, Effects: st.Effects}
 		if init, ok := st.Ghost["loopInit"].(map[string]sym.Value); ok {
 			sp.Init = init
 		}
